@@ -1,5 +1,5 @@
 From Coq Require Extraction ExtrOcamlBasic.
-From SK Require Import Base.Prelude Base.F64 Spec.Bins Store.Any Stat.Summary Sketch.Sketch Wire.Wire Wire.Grammar Wire.GrammarRaw Wire.Proto Data.Dataset Data.DatasetSum Wire.ProtoEdit Mapping.Glue Extract.Instances Sketch.ChangeMappingG.
+From SK Require Import Base.Prelude Base.F64 Spec.Bins Store.Any Stat.Summary Sketch.Sketch Wire.Wire Wire.Grammar Wire.GrammarRaw Wire.Proto Data.Dataset Data.DatasetSum Wire.ProtoEdit Wire.ProtoB Mapping.Glue Extract.Instances Sketch.ChangeMappingG.
 From SK Require Import Codec.Codec.
 From SK Require Codec.Varfloat.
 Extraction Language OCaml.
@@ -19,6 +19,6 @@ Extraction "model.ml"
   (* wire *) xk_enc xk_dec_into ds_of_sketch ds_fresh sketch_of_ds enc_mapping dec_mapping
   (* mappings *) with_gamma with_accuracy gm_index gm_lower gm_value gm_accuracy
   (* paginated loops *) xp_min_go xp_max_go xp_key_at_rank_go
-  (* protobuf *) parse_store parse_sketch parse_mapping stream_store stream_sketch stream_mapping to_proto_sparse to_proto_dense pb_of_dense_proto pb_map_view store_content pb_sketch_scale
+  (* protobuf *) parse_store parse_sketch parse_mapping stream_store stream_sketch stream_mapping to_proto_sparse to_proto_dense pb_of_dense_proto pb_map_view store_content pb_sketch_scale st_to_proto st_merge_with_proto_go sk_to_proto sk_from_proto
   (* change of mapping, float level (C17 lockstep) *) cmf_sketch cmf_store cmf_shortcut go_max go_min
   (* dataset *) d_new d_add d_merge xd_lower xd_upper xd_min xd_max d_sum_exact xd_sum.
